@@ -52,6 +52,7 @@ def main(argv=None) -> int:
     s.add_argument("--repo", default="/repo")
     s.add_argument("--jobs", type=int, default=min(16, os.cpu_count() or 1))
     s.add_argument("--verbose", action="store_true")
+    s.add_argument("--only", default=None, help="substring of variant ids to run")
     x = sub.add_parser("crosscheck")
     x.add_argument("--repo", default="/repo")
     args = ap.parse_args(argv)
@@ -83,7 +84,7 @@ def main(argv=None) -> int:
             return run_check(data["property"], data.get("tier", "quick"), data.get("repo") or "/repo", evidence_dir="/tmp/funsorlint-replay")
         if args.cmd == "selftest":
             from . import selftest
-            return selftest.run([p.upper() for p in args.props] or None, args.repo, jobs=args.jobs, verbose=args.verbose)
+            return selftest.run([p.upper() for p in args.props] or None, args.repo, jobs=args.jobs, verbose=args.verbose, only=args.only)
         if args.cmd == "crosscheck":
             from . import crosscheck
             return crosscheck.run(args.repo)
